@@ -10,6 +10,9 @@
  * heap = ncmpi_inq_malloc_size (only a library configured with --enable-debug traces it; otherwise -1); if heap > 0
  * ncmpi_inq_malloc_list() prints the residues (file, function, line) to stdout.
  * c17_report_now(tag) can be called by a harness to emit an intermediate line "C17@<tag> ...".
+ * TABLE PROBE: every MPI_Barrier(MPI_COMM_WORLD) made by the program (the script op `barrier` of pnc_impl; with one
+ * process the library makes none) appends a line  "C17#<k> files=<n> ids=<id,id,...>"  = ncmpi_inq_files_opened
+ * count and list at that moment (k = 1, 2, ... counts the barriers).
  * The harness's own MPI objects are part of the counts; harnesses free what they create. */
 #include <stdio.h>
 #include <stdlib.h>
@@ -91,6 +94,26 @@ static FILE *c17_open(void)
     PMPI_Comm_rank(MPI_COMM_WORLD, &rank);
     snprintf(path, sizeof path, "%s.%d", base, rank);
     return fopen(path, "a");
+}
+
+static long n_barrier;
+int MPI_Barrier(MPI_Comm comm)
+{
+    if (comm == MPI_COMM_WORLD && getenv("C17_REPORT") != NULL && getenv("C17_TABLE_PROBE") != NULL) {
+        FILE *f = c17_open();
+        if (f != NULL) {
+            int n = -1, n2 = -1, i, ids[NC_MAX_NFILES + 8];
+            n_barrier++;
+            ncmpi_inq_files_opened(&n, NULL);
+            for (i = 0; i < NC_MAX_NFILES + 8; i++) ids[i] = -77;
+            ncmpi_inq_files_opened(&n2, ids);
+            fprintf(f, "C17#%ld files=%d listed=%d ids=", n_barrier, n, n2);
+            for (i = 0; i < n2 && i < NC_MAX_NFILES + 8; i++) fprintf(f, "%s%d", i ? "," : "", ids[i]);
+            fprintf(f, "\n");
+            fclose(f);
+        }
+    }
+    return PMPI_Barrier(comm);
 }
 
 void c17_report_now(const char *tag)
